@@ -224,6 +224,8 @@ def _birthday(_):
     return st
 
 
+DIGITS = ['0', '7', '1', '10', '1012345678', '1234567817', '101234567817', '234567817']
+UNI = ['\u041c\u043e\u0441\u043a\u0432\u0430', '\u041a\u0430\u0437\u0430\u043d\u044c', '\u65e5\u672c', '\u4e2d\u56fd', '\u00fc', '\u00e9', 'u']
 LONG = ['http://example.org/some/very/long/path/with/a/shared/prefix?id=' + t for t in ('1', '2', '10', '01')] + ['x' * 64 + 'a', 'x' * 64 + 'b', 'x' * 65]
 
 
@@ -234,6 +236,16 @@ def _long_values(_):
     for a, b in itertools.product(LONG, repeat=2):
         for c, d in ((LONG[0], LONG[1]), (LONG[4], LONG[5]), ('s', LONG[6])):
             rows = [[a, c, '0'], [b, d, '1'], [a, d, '0'], [b, c, '1']]
+            st.count('evaluations')
+            st.count('nontrivial')
+            st.count('long_value_cases')
+            for sig, msg in judge(cols, rows, 2, 2 ** 15):
+                st.violation({'columns': cols, 'rows': rows, 'order': 2, 'cap': 2 ** 15}, msg[:600], dict(sig, long=True))
+    # ids of ten and more digits (a length prefix without delimiter is ambiguous from two-digit lengths on); same-length values in non-latin scripts
+    for alphabet in (DIGITS, UNI):
+        rowset = list(itertools.product(alphabet, repeat=2))
+        for (a1, b1), (a2, b2) in itertools.combinations(rowset, 2):
+            rows = [[a1, b1, '0'], [a2, b2, '1']]
             st.count('evaluations')
             st.count('nontrivial')
             st.count('long_value_cases')
